@@ -30,7 +30,7 @@ VH_DRIVER(memory){
       size_t n=sizes[R.below(13)], a=fact[R.below(12)], b=fact[R.below(12)]; if(R.below(3)){ a=fact[R.below(6)]; b=fact[R.below(6)]; if(R.below(2)) n=sizes[R.below(8)]; }
       int pi= live.empty()? -1 : R.below((int)live.size()+ (closing?0:1)) ; if(pi>=(int)live.size()) pi=-1; if(closing) pi=0;
       UB old= pi>=0? live[pi] : UB{nullptr,0,0,0};
-      size_t tot=0; bool ovf=__builtin_mul_overflow(a,b,&tot); size_t req= (kind==1||kind==3)? tot : n; bool hdrovf= req>SMAX-sizeof(size_t);
+      size_t tot=0; bool ovf=__builtin_mul_overflow(a,b,&tot); size_t req= (kind==1||kind==3)? tot : n; bool hdrovf= req>SMAX-4096;   /* "huge": no header of any plausible size fits on top */
       g.set_case(J().str("driver","memory").num("episode",ep).num("step",s).num("kind",kind).done());
       be.log.clear(); errno=0; void*ret=nullptr; const char*kn="m";
       switch(kind){ case 0: kn="m"; ret=mm.malloc(&mm,n); break; case 1: kn="c"; ret=mm.calloc(&mm,a,b); break; case 2: kn="r"; ret=mm.realloc(&mm,old.p,n); break; case 3: kn="a"; ret=mm.reallocarray(&mm,old.p,a,b); break; default: kn="f"; mm.free(&mm,old.p); }
